@@ -18,6 +18,10 @@ pub const PTR: usize = std::mem::size_of::<usize>();
 /// whose elements own heap data, inside an import parameter that is lowered to
 /// memory, has its elements dropped before the import is called.  One exact
 /// signature, whatever the element type / nesting / world.
+/// Second known defect of the same construct: an export *result* that contains a
+/// fixed-length list with heap elements is not cleaned up by post-return (the
+/// generated `__post_return_*` frees nothing for the elements): a leak per call.
+pub const SIG_FIXED_LIST_LEAK: &str = "rust-mem:leak:export:fixed-list-with-heap-elements-in-result:not-freed-by-post-return";
 pub const SIG_FIXED_LIST_DANGLING: &str = "rust-e2e:import:param:fixed-list-with-heap-elements-lowered-to-memory:dangling-elements";
 
 /// What the host expects from the import call that the running driver makes.
@@ -363,7 +367,12 @@ impl<'a> Host<'a> {
         }
         let blocks = alloc::tracked_blocks(12);
         let kind = if after.blocks > before.blocks || after.bytes > before.bytes { "leak" } else { "over-free" };
-        let sig = format!("rust-mem:{}:{}:{}", kind, f.dir.name(), plan::focus(&self.heap_class(f)));
+        let result_has_flh = f.result.as_ref().map(|t| plan::shape_class(&self.abi, t, 0).contains("flh<")).unwrap_or(false);
+        let sig = if kind == "leak" && f.dir == Dir::Export && result_has_flh {
+            SIG_FIXED_LIST_LEAK.to_string()
+        } else {
+            format!("rust-mem:{}:{}:{}", kind, f.dir.name(), plan::focus(&self.heap_class(f)))
+        };
         let msg = format!(
             "{} `{}`: guest heap not restored after the call{}: live blocks {} -> {}, bytes {} -> {}; some live guest blocks (size, align): {:?} [opts {}]",
             f.dir.name(),
